@@ -13,7 +13,8 @@ Child behaviour (harness configuration, per spawn index; the last entry repeats)
 A signalled child that reacts dies at once (code -sig).  A child that has exited but has not been
 reaped by poll()/wait() is a zombie: signalling it succeeds without effect (as killpg on a zombie's
 group does); after it was reaped `kill_process` raises ProcessLookupError (as os.getpgid does).
-Pids are never reused.  Every seam call is a scheduling point.
+Pids are never reused.  Every seam call is a scheduling point.  `max_children` bounds the number of spawns of
+one execution: exceeding it ends the execution (step horizon) with a "runaway" record in the log.
 """
 
 from __future__ import annotations
@@ -52,8 +53,9 @@ def _at(seq, i):
 
 
 class Table:
-    def __init__(self, s, log, lifetimes=(None,), ignores=(False,), role=None):
+    def __init__(self, s, log, lifetimes=(None,), ignores=(False,), role=None, max_children=None):
         self.s = s
+        self.max_children = max_children    # more spawns than this end the execution (runaway guard)
         self.role = role                    # maps a scheduler thread to the name recorded as the spawner
         self.log = log                      # list shared with the harness
         self.lifetimes = tuple(lifetimes)
@@ -80,6 +82,11 @@ class Table:
         me = s.me()
         by = "?" if me is None else (self.role(me) if self.role else me.name)
         self.log.append(("spawn", pid, s.clock, ch.deadline, by))
+        if self.max_children is not None and len(self.children) > self.max_children:
+            # runaway (e.g. an endless restart cascade): end the execution at the next scheduling point;
+            # it is reported as a horizon abort and the harness names it from the "runaway" record
+            self.log.append(("runaway", len(self.children), s.clock))
+            s.max_steps = 0
         return ch
 
     def signal(self, pid, sig):
